@@ -50,6 +50,9 @@ CHECKS = {
     "C07": ("who-may-write on the ban list + value-edge path rules in ConnectionPool::get/run_health_check/try_unban and the client's I/O helpers + provenance of timeouts",
             "All-sites/all-paths structural decision over the type-checked MIR: the ban list is inserted into only by ban(), only over role != Primary, with the address it was given; a failed bb8 checkout or health check bans the tried candidate and continues with the next one, run_health_check returns false only after mark_bad and ban, send/receive helpers return Err only after banning; from is_banned()==true the checkout is reached only over try_unban()==true, every candidate is tested, a just-unbanned address forces a health check and the fast return depends on that flag; AllServersDown is returned only when candidates are exhausted; removals happen only in unban/try_unban, unban-all is tied to `banned == count(role==Replica)`, expiry compares with ban_time or the admin duration; the health check and every client-path Server::recv run under timeouts taken from healthcheck_timeout / statement_timeout, connects under connect_timeout.",
             "Detection latency, fault sequences and candidate ordering are not decided; server I/O in sync_parameters/checkin_cleanup/register_prepared_statement is not under a pgcat timeout (reported). " + TRUST, "DESIGN.md §4 C07"),
+    "C04": ("provenance of bb8 builder arguments + escape/type facts on PooledConnection from the type checker + must-pass-through (guard dropped before the idle wait) + path rules on the checkout-failure arm",
+            "Structural necessary conditions decided over the type-checked MIR (bb8 itself enforces the bound and the waiter queue and is trusted): every bb8 pool of server connections is built in from_config (max_size = user.pool_size unchanged, connection_timeout from connect_timeout, one pool per server) or for a mirror (constant max_size); no field, static, spawned task, Arc or forget can hold a PooledConnection and guards appear only in the four known bodies; in Client::handle the guard is defined inside the idle-loop iteration, never moved, and dropped on every path back to the idle wait; a failed checkout reports an error and continues the idle loop, returning only through checkout_failure_limit.",
+            "bb8 0.8.6's enforcement of max_size, its FIFO/LIFO waiter queue and timeouts are trusted; histories of connects/errors/disconnects are not explored. " + TRUST, "DESIGN.md §4 C04"),
 }
 
 NOT_APPLICABLE = {}
